@@ -4,7 +4,7 @@ open Lean Proto ExprProto Template Extracted.Expr
 
 def errName : Err → String
   | .parse => "parse" | .numbering => "numbering" | .conversion => "conversion" | .spec => "spec"
-  | .unsupported => "unsupported" | .recursion => "recursion"
+  | .unsupported => "unsupported" | .recursion => "recursion" | .tooWide => "tooWide"
 
 def argName : LogArg → String
   | .msg => "log_msg" | .tpId => "tp_id" | .ctxId => "ctx_id"
